@@ -47,6 +47,11 @@ type c09Case struct {
 
 type c09Val struct{ A, B int }
 
+// c09Marshal panics while it is being encoded
+type c09Marshal struct{}
+
+func (c09Marshal) MarshalJSON() ([]byte, error) { panic("boom-in-marshal") }
+
 var c09Err = errors.New("boom-error")
 
 func c09Value(kind string) any {
@@ -59,6 +64,9 @@ func c09Value(kind string) any {
 		return http.ErrAbortHandler // what a reverse proxy panics with
 	case "int":
 		return 42
+	case "jsonp-marshal":
+		// raised inside the JSONP helper: the value's MarshalJSON panics while the response is being rendered
+		return "boom-in-marshal"
 	case "invalid-status":
 		// not raised by the handler itself: it selects status 99 and writes; the caller's ResponseWriter refuses the
 		// status with this panic (as net/http does) when the header is committed
@@ -126,6 +134,11 @@ func newC09Router(c c09Case) *c09Router {
 		if c.Value == "invalid-status" {
 			ctx.SetStatus(99)
 			ctx.WriteString("x") // the commit of status 99 panics inside the caller's writer
+			cr.log = append(cr.log, "no-panic-from-writer")
+			return
+		}
+		if c.Value == "jsonp-marshal" {
+			ctx.JSONP(200, "cb", c09Marshal{})
 			cr.log = append(cr.log, "no-panic-from-writer")
 			return
 		}
@@ -315,6 +328,11 @@ func c09Run(c c09Case, st *fw.Stats) []fw.Viol {
 			if c.Committed {
 				wantBody += "x"
 			}
+			if c.Value == "jsonp-marshal" && strings.Contains(string(w.body), "cb(") {
+				// the JSONP helper had already sent the callback name (and so committed its status 200) when the value's
+				// encoder panicked; a helper that renders into a buffer first sends nothing - both are fine
+				wantBody, committed = wantBody+"cb(", true
+			}
 			if c.Hook == "status-body" || c.Hook == "body" {
 				wantBody += "H"
 			}
@@ -389,6 +407,8 @@ func c09Gen(tier string, emit func(c09Case)) {
 									emit(c09Case{Where: "chain", N: n, Split: sp, Pos: pos, When: when, Value: v, Hook: hk, Logger: true, Committed: true})
 									emit(c09Case{Where: "chain", N: n, Split: sp, Pos: pos, When: when, Value: "invalid-status", Hook: hk})
 									emit(c09Case{Where: "chain", N: n, Split: sp, Pos: pos, When: when, Value: "invalid-status", Hook: hk, PanicsMW: true})
+									emit(c09Case{Where: "chain", N: n, Split: sp, Pos: pos, When: when, Value: "jsonp-marshal", Hook: hk})
+									emit(c09Case{Where: "chain", N: n, Split: sp, Pos: pos, When: when, Value: "jsonp-marshal", Hook: hk, PanicsMW: true})
 								}
 								if f == 0 || f == 2 {
 									emit(c09Case{Where: "chain", N: n, Split: sp, Pos: pos, When: when, Value: v, Hook: hk, Committed: f&2 != 0, Mounted: true})
@@ -430,7 +450,7 @@ func c09Gen(tier string, emit func(c09Case)) {
 var c09Spec = fw.Spec[c09Case]{
 	ID:    "C09",
 	Level: "model_checking",
-	Rule: "complete product: chain shapes n<=3 (thorough 5) x every global/group/route split x every panic position x {before Next, after Next, without Next} x panic value {string, error, struct, http.ErrAbortHandler, int} x hook {absent, does nothing, status only, status+body, body only, AbortWithStatus(503, message)} x {PanicsHandler middleware} x {a byte committed before the panic} (+ the panic request issued twice) (+ the router mounted behind a front router that passes its context on with HandleContext) (+ under the Timeout middleware with a deadline that is far away / has already passed) (+ on a caller's writer without Flush) (+ the panicking handler calls Abort first) (+ handlers.ConsoleLogger first in the chain with the request's path on its skip list) (+ the panic raised by the caller's ResponseWriter when the handler commits status 99), plus panics inside NotFound / NotAllowed / OnError handlers; each followed by every one of 15 follow-up request kinds compared with a fresh identical router; " +
+	Rule: "complete product: chain shapes n<=3 (thorough 5) x every global/group/route split x every panic position x {before Next, after Next, without Next} x panic value {string, error, struct, http.ErrAbortHandler, int} x hook {absent, does nothing, status only, status+body, body only, AbortWithStatus(503, message)} x {PanicsHandler middleware} x {a byte committed before the panic} (+ the panic request issued twice) (+ the router mounted behind a front router that passes its context on with HandleContext) (+ under the Timeout middleware with a deadline that is far away / has already passed) (+ on a caller's writer without Flush) (+ the panicking handler calls Abort first) (+ handlers.ConsoleLogger first in the chain with the request's path on its skip list) (+ the panic raised by the caller's ResponseWriter when the handler commits status 99) (+ the panic raised by a value's MarshalJSON inside the JSONP helper), plus panics inside NotFound / NotAllowed / OnError handlers; each followed by every one of 15 follow-up request kinds compared with a fresh identical router; " +
 		"every case is non-trivial (a panic is raised in each)",
 	Assume: []string{"for the in-chain PanicsHandler only 'the panic does not escape' and 'follow-ups are unaffected' are asserted (the statement promises nothing else for it)", "when the hook sets no status, any single committed status is accepted"},
 	Bounds: func(tier string) map[string]any {
